@@ -906,7 +906,9 @@ func (c *Ctx) execTypeAssert(s *State, x *ssa.TypeAssert) {
 	var okT Term
 	var res Value
 	if _, isIface := at.Underlying().(*types.Interface); isIface {
-		if types.Identical(at.Underlying(), types.NewInterfaceType(nil, nil).Complete()) || at.Underlying().(*types.Interface).NumMethods() == 0 {
+		if types.Identical(at.Underlying(), types.NewInterfaceType(nil, nil).Complete()) || at.Underlying().(*types.Interface).NumMethods() == 0 ||
+			types.Implements(x.X.Type(), at.Underlying().(*types.Interface)) {
+			// the static type already has the methods: only nil-ness matters
 			okT = Neq(iv.Typ, IntLit(0))
 		} else {
 			okT = And(Neq(iv.Typ, IntLit(0)), c.d.Apply("implements|"+typeKey(at), []Term{iv.Typ}, SBool))
@@ -1070,6 +1072,10 @@ func (c *Ctx) intBinOp(s *State, x *ssa.BinOp, A, B Term, t types.Type) Term {
 			return app("mod", SInt, r, BigIntLit("18446744073709551616"))
 		}
 		if _, lit := isIntLit(r); lit {
+			return r
+		}
+		if fc := c.eng.contracts.funcs[qualFnName(x.Parent())]; fc != nil && fc.ArithTrusted != "" {
+			c.note("overflow of signed arithmetic in " + fc.Key + " not checked: " + fc.ArithTrusted)
 			return r
 		}
 		name := fmt.Sprintf("%s/safe:overflow#%d", fk, c.ordinal("overflow", x))
